@@ -170,6 +170,10 @@ def run_many(jobs, workers=None):
 
 # --------------------------------------------------------------------------- Miri
 
+# c11 drives array::map!/from_fn! closures that panic or leave early: those macros document that they
+# leak the already-written elements on such paths (and the property exempts them), so the leak
+# checker is off for that sub-command only.
+MIRI_IGNORE_LEAKS = {"c11"}
 MIRI_UB_RE = re.compile(r"error: Undefined Behavior: (.*)")
 
 
@@ -195,6 +199,8 @@ def run_miri(sub, tier, seed, shard, tree_borrows=False, timeout=3600, raw_drops
     if os.path.exists(outp):
         os.remove(outp)
     flags = "-Zmiri-disable-isolation"
+    if sub in MIRI_IGNORE_LEAKS:
+        flags += " -Zmiri-ignore-leaks"
     if tree_borrows:
         flags += " -Zmiri-tree-borrows"
     cmd = ["cargo", "+nightly", "miri", "run", "--offline", "-q", "--manifest-path", os.path.join(HARNESS, "Cargo.toml"), "--",
